@@ -69,6 +69,14 @@ CLAIMED = {
             "reflexive, same-kind, cross-kind and near-miss pairs: a == b, a != b and b == a printed by the interpreter must equal VEq(a, b) and its negation",
             "pairs are bounded by the pool; transitivity follows from agreement with an equivalence on all compared pairs",
             "DESIGN.md §6 C13"),
+    "C14": (MC, "TLC checks the preorder / variance laws on Types.tla (Sub) over all pairs of Full(1) and all triples of Reduced(1) and prints the relation; hook `subtype` evaluates the real is_subtype on the same pairs",
+            "TLC decides reflexivity, top/bottom, variance and transitivity on the bounded type family in the model; the real is_subtype must agree with Sub bit for bit on all 101x101 pairs of depth <= 1 and on seeded random pairs of depth <= 3",
+            "laws are model checked on a bounded family (no TLAPS proof was built); agreement model/implementation is sampled beyond depth 1",
+            "DESIGN.md §6 C14"),
+    "C15": (MC, "TLC checks join-is-an-upper-bound and idempotence on Types.tla (Join) and prints the join table; hook `subtype` evaluates the real unify on the same pairs",
+            "the real unify must return exactly Join(a, b) of the specification, for which TLC has checked Sub(a, Join) /\\ Sub(b, Join) and Join(a, a) = a on all pairs of Full(1) and the folded join on triples of Reduced(1); seeded random pairs of depth <= 3",
+            "bounded family; unify_all is checked through folded triples",
+            "DESIGN.md §6 C15"),
     "C30": (MC, "TLC model checking of Nrepl.tla (all interleavings of reader / workers / flushers / writer on 7 client scenarios, safety + liveness) and TLC trace validation (NreplTrace.tla) of traces recorded from the real server under seeded schedule perturbation",
             "the design is checked exhaustively on bounded scenarios; every recorded send/recv log of the real server must be explained by some interleaving of the specification's silent server steps with all invariants holding; corrupted copies of accepted traces are rejected on every run",
             "the exhaustive claim is about the model; trace validation covers the schedules produced by the kernel and hook H3; error message texts are not compared",
